@@ -80,6 +80,8 @@ class Exec:
         self.round_terms = []  # occurrences of round4 for axiom instantiation
         self.pow_terms = []
         self.mul_terms = []
+        self.extra_facts = []
+        self.use_resolver = False      # solver-aided peeling of stores at symbolic addresses: correct but slow (kept off)
         self.sum_terms = []
 
     # ------------------------------------------------------------------ sinks
@@ -230,7 +232,7 @@ class Exec:
         if not z3.is_false(sb) and not self.spec:
             h = st.heap
             cont = z3.And(sb, h.kind_of(Z.addr(a)) != Z.K_OBJ, h.kind_of(Z.addr(a)) == h.kind_of(Z.addr(b)))
-            if self.pure or st.feasible(cont):
+            if st.feasible(cont):
                 raise Unsupported("== between two containers (deep equality)", node)
         return z3.simplify(
             z3.If(z3.And(Z.is_num(a), Z.is_num(b)), self.num_cmp(a, b, lambda x, y: x == y),
@@ -345,8 +347,37 @@ class Exec:
         return facts
 
     # ------------------------------------------------------------------ expressions
+    def set_resolver(self, st):
+        from . import heap as HP
+        cache = st.meta.get('_addr_cmp')
+        if cache is None:
+            cache = {}
+
+        def cmp(a1, a2, st=st, cache=cache):
+            if a1.eq(a2):
+                return True
+            key = (a1.get_id(), a2.get_id(), len(st.pc))
+            if key in cache:
+                return cache[key]
+            d = z3.simplify(a1 == a2)
+            if z3.is_true(d):
+                r = True
+            elif z3.is_false(d):
+                r = False
+            elif st.implies(a1 != a2):
+                r = False
+            elif st.implies(a1 == a2):
+                r = True
+            else:
+                r = None
+            cache[key] = r
+            return r
+        HP.RESOLVER[0] = cmp
+
     def ev(self, node, st):
         """evaluate expression; returns list of (state, value)"""
+        if self.use_resolver:
+            self.set_resolver(st)
         m = getattr(self, 'ev_' + type(node).__name__, None)
         if m is None:
             raise Unsupported("expression " + type(node).__name__, node)
@@ -808,7 +839,8 @@ class Exec:
             s3 = self.guard(s2, z3.And(i >= -n, i < n), 'IndexError', 'index out of range: ' + ast.unparse(node))
             if s3 is None:
                 return []
-            j = z3.simplify(z3.If(i < 0, i + n, i))
+            # specifications index from the front only (negative indices are a feature of the executable code)
+            j = i if self.spec else z3.simplify(z3.If(i < 0, i + n, i))
             return [(s3, h.item(a, j))]
         if self.known(st, Z.is_s(base)):
             s2 = self.guard(st, Z.is_intlike(idx), 'TypeError', 'string index must be int')
